@@ -349,3 +349,52 @@ Definition o_fres (f : fres) : out :=
   match f with FNone => OL [OZ 0] | FIndel => OL [OZ 1] | FChange a i b => OL [OZ 2; OZ a; OZ i; OZ b] | FError => OL [OZ 3] end.
 Definition o_var3 (x : Z * str * str) : out := let '(p, r, a) := x in OL [OZ p; o_str r; o_str a].
 Definition o_key (k : Z * vop) : out := OL [OZ (fst k); o_vop (snd k)].
+
+(* ------------------------------------------------------------------ one evaluation per written variant (harness/c08.py) *)
+Definition lkf (t : ctab) (al : align) (w : iseq) : Z -> Z := lookup_at t al w.
+Definition c08_case (t : ctab) (al : align) (w : iseq) (p : Z) (op : str) (a m : Z) : out :=
+  match parse_op op with
+  | None => OL [OZ 0; o_cres (convert t al p op)]
+  | Some v =>
+    let cv := convert_v t al p v in
+    OL [OZ 1; o_cres (convert t al p op); o_bool (variant_ok al w p v a m);
+        o_str (hap_refseq w p v a m); o_opt o_str (hap_genome t al w p v a m); o_opt OZ (gwin al a m);
+        o_opt o_str (match convert t al p op with CLoaded _ gop => reverse_op t gop | _ => None end);
+        o_opt o_var3 (match cv with Some (g, v') => realign_variant (lkf t al w) g v' | None => None end);
+        o_opt o_key (match cv with
+                     | Some (g, v') => match realign_variant (lkf t al w) g v' with Some x => eq_key x | None => None end
+                     | None => None end);
+        o_str (print_op v)]
+  end.
+(* the PROPERTY on the implementation's output: [g],[gop] = key loaded by aldy, [gw] = gene[c:c+m] as aldy returns it,
+   [p],[op] = notation written in the database, [rw] = RefSeq window *)
+Definition holds_variant (t : ctab) (plus : bool) (g : Z) (gop : str) (gw : iseq) (p : Z) (op : str) (rw : iseq) : bool :=
+  match parse_op gop, parse_op op with
+  | Some v', Some v =>
+      str_eqb (orient t plus (apply_genome g v' gw)) (apply_refseq p v rw) && ref_match v (p - 1) rw && ref_match v' g gw && shape_ok v
+  | _, _ => false
+  end.
+(* insertion/deletion anchoring observed on the implementation: [x] = arguments of the Variant aldy built, [k] = a key of its
+   equivalence table that points to (g, gop); [gw] covers the site *)
+Definition holds_gap (g : Z) (gop : str) (gw : iseq) (x : Z * str * str) (k : Z * str) : bool :=
+  match parse_op gop, parse_op (snd k) with
+  | Some (Ins y), Some (Ins y') =>
+      str_eqb (apply_vcf x gw) (apply_genome g (Ins y) gw) && str_eqb (apply_cigar_ins (fst k) y' gw) (apply_genome g (Ins y) gw)
+      && (fst (gap_vcf x) =? fst (gap_db g)) && (snd (gap_vcf x) =? snd (gap_db g))
+      && (fst (gap_cigar (fst k)) =? fst (gap_db g)) && (snd (gap_cigar (fst k)) =? snd (gap_db g))
+  | Some (Del d), Some (Del d') =>
+      str_eqb (apply_vcf x gw) (apply_genome g (Del d) gw) && str_eqb (apply_cigar_del (fst k) (length d') gw) (apply_genome g (Del d) gw)
+  | _, _ => false
+  end.
+
+(* ------------------------------------------------------------------ decidable side conditions used by the theorems *)
+(* alleles over the alphabet {A..Z, '.'}: evaluated on every database by the harness *)
+Definition vop_ok (v : vop) : bool :=
+  match v with
+  | Sub l r => forallb is_nt l && forallb is_nt r
+  | Ins x => forallb is_nt x
+  | Del d => forallb is_nt d
+  | DelIns d i => forallb is_nt d && forallb is_nt i
+  | Other _ => false
+  end.
+Definition op_ok (op : str) : bool := match parse_op op with Some v => vop_ok v | None => false end.
